@@ -35,6 +35,8 @@ MUTANTS = {
                                     "        d = shape - 1.0 / 3.0;\n        c = (a_prev == 0.0) ? 1.0 / sqrt(9.0 * d) : c;\n        a_prev = shape;")]),
     "gamma-memo-order": ("caught", [("        d = shape - 1.0 / 3.0;\n        c = 1.0 / sqrt(9.0 * d);\n", "        c = 1.0 / sqrt(9.0 * d);\n        d = shape - 1.0 / 3.0;\n")]),
     "gamma-memo-tolerance": ("caught", [("    if (shape != a_prev) {", "    if (fabs(shape - a_prev) > 1.0e-9) {")]),   # seeded change C15-a
+    "gamma-memo-epsilon": ("caught", [("    if (shape != a_prev) {", "    if (fabs(shape - a_prev) > 2.2204460492503131e-16) {")]),   # seeded C19-e
+    "geometric-boundary": ("caught", [("        denom = -log(1.0 - p);\n", "        prev = p;\n        if (p < 1.0) {\n            denom = -log(1.0 - p);\n        }\n")]),   # seeded C15-e
     "harmless-geometric-memo-fixed": ("pass", [("        denom = -log(1.0 - p);\n", "        denom = -log(1.0 - p);\n        prev = p;\n")]),
     "geometric-memo-live": ("caught", [("        denom = -log(1.0 - p);\n", "        denom = -log(1.0 - p);\n        prev = (p < 0.5) ? p : prev;\n")]),
     "harmless-commute": ("pass", [("prng_state.a + prng_state.b + prng_state.d++", "prng_state.b + prng_state.a + prng_state.d++")]),
